@@ -249,6 +249,22 @@ func runC19(c *an.Ctx) {
 					bad = "header manipulation " + n
 				}
 			}
+			// the outgoing URL and host come from SetURL(target) alone: no other
+			// store under r.Out (Host excepted) and no URL re-parsing
+			an.Instrs(rewriteFn, func(in ssa.Instruction) {
+				st, ok := in.(*ssa.Store)
+				if !ok {
+					return
+				}
+				if ap, ok := an.AccessPath(st.Addr); ok && strings.Contains(ap, ".Out.") && !strings.HasSuffix(ap, ".Out.Host") {
+					bad = "store to " + ap + " (the outgoing URL must be the one SetURL derives from the inbound path)"
+				}
+			})
+			for _, call := range an.Calls(rewriteFn) {
+				if callee := an.StaticCallee(call); callee != nil && callee.Pkg != nil && callee.Pkg.Pkg.Path() == "net/url" {
+					bad = "call of " + an.Short(an.CalleeName(call)) + " (re-parsing an already decoded path decodes it twice)"
+				}
+			}
 			c19OutHeaders(c, rewriteFn)
 			c.Check(setURL && bad == "", "C19-R3", "websvc.linkedIPHandler Rewrite", rewriteFn.Pos(),
 				"Rewrite routes to the configured target with SetURL and only sets Host and User-Agent",
